@@ -13,10 +13,11 @@ open Conv Conv.Xml
 
 /-! ## All values, in order -/
 
-/-- **Values in order** (Properties that have a value).  For every Property - any number of
-    value elements, any texts, any other children - the single `value` element the converter writes is read back by the strict
-    reader (`from_csv`) as exactly the non-blank value texts of the 1.0 Property, stripped, in
-    order.  (Before fix 9cd3c9f this held only for `plainProp` Properties: values without `,`
+/-- **Values in order** (Properties that have a value).  For every Property of a source that
+    does not already declare format version 1.1 (`enc = false`: every odML 1.0 document) - any
+    number of value elements, any texts, any other children - the single `value` element the
+    converter writes is read back by the strict reader (`from_csv`) as exactly the non-blank
+    value texts of the 1.0 Property, stripped, in order.  (Before fix 118e0c3 this held only for `plainProp` Properties: values without `,`
     `"` line breaks, blank texts and a bracketed single value; the texts were joined with bare
     commas.  Now they are written with `to_csv`, which `from_csv` inverts: the csv round trip
     of C01.) -/
@@ -156,7 +157,7 @@ theorem fold_values_witness_encoded :
     encodedValues (.elem "odML" [] [] []) = false := by decide
 
 /-- The text before the repair (`foldTextLegacy`: the stripped texts joined with bare commas,
-    brackets for more than one) was not read back as the values: the defect fix 9cd3c9f repairs. -/
+    brackets for more than one) was not read back as the values: the defect fix 118e0c3 repairs. -/
 def joinLegacy : List (List Char) → List Char
   | [] => []
   | [v] => Py.strip v
@@ -266,7 +267,7 @@ theorem rename_properties_spec (sm : Counter) (sd : List (List Char)) (ks : List
 
 /-- **Sibling names unique.**  After suffixing, the names of the Section children of a node
     are pairwise different - for any number of siblings, any names (also ones that look like
-    suffixed names, `p-2`) and any number of clashes.  (Before fix a03a000 this needed the
+    suffixed names, `p-2`) and any number of clashes.  (Before fix 6a95aab this needed the
     hypothesis `noSuffixClash`: no sibling literally called `n-k`.) -/
 theorem rename_unique (b : Bool) (pm : Counter) (pd : List (List Char)) (ks : List Xml) :
     (secNames (p1Kids b [] pm [] pd ks)).Nodup := by
